@@ -289,12 +289,32 @@ def run(ctx, rep):
     # barrel dispatch
     pdw = "fastpasta::analyze::validators::its::cdp_running::CdpRunningValidator::<T, C>::preprocess_data_word"
     if pdw in f.fns:
-        out = ev.collect_ifs(pdw, [Sym("self"), Slice("W", 0, 10)])
-        cs = [ckey(c["cond"]) for c in out if "cond" in c]
-        k_ib = ckey(oracle_cond({"cmp": "Eq", "bits": [79, 77], "const": 1}, "W"))
-        k_ob = ckey(oracle_cond({"cmp": "Eq", "bits": [79, 77], "const": 2}, "W"))
-        rep.check(k_ib in cs and k_ob in cs, "R11.2", "R11.2|barrel_dispatch", "IB iff id[7:5]==1, OB iff id[7:5]==2", pdw,
-                  "barrel dispatch conditions %s do not contain %s / %s" % ([c[:80] for c in cs], k_ib, k_ob))
+        # decided per identifier (all 256, the word not being a calibration word): the inner-barrel handler runs exactly
+        # for id[7:5] == 1, the outer-barrel handler exactly for id[7:5] == 2
+        wrong = []
+        ev.watch = lambda c: c.endswith("::process_ib_data_word") or c.endswith("::process_ob_data_word")
+        slf_ = Agg("CdpRunningValidator", "CdpRunningValidator", {"tracker": Agg("CdpTracker", "CdpTracker", {"is_start_of_data": Cond("false")})})
+        try:
+            for i in range(256):
+                ev.assume = {}
+                ev.assume_bits("W", 72, 8, i)
+                try:
+                    recs_ = [o for o in ev.collect_ifs(pdw, [slf_, Slice("W", 0, 10)]) if "call" in o and not any(g in ("false", "not true") for g in o["guard"])]
+                except Unsupported as e:
+                    wrong.append((hex(i), "unevaluable %s" % e))
+                    break
+                got_ = sorted(o["call"].split("::")[-1] for o in recs_ if all(g in ("true", "not false") for g in o["guard"]))
+                und_ = [o for o in recs_ if not all(g in ("true", "not false") for g in o["guard"])]
+                want_ = {1: ["process_ib_data_word"], 2: ["process_ob_data_word"]}.get(i >> 5, [])
+                if got_ != want_ or und_:
+                    wrong.append((hex(i), got_ + ["undecided:%d" % len(und_)] if und_ else got_))
+        finally:
+            ev.watch = None
+            ev.assume = {}
+        cs = wrong
+        k_ib, k_ob = "id[7:5]==1", "id[7:5]==2"
+        rep.check(not wrong, "R11.2", "R11.2|barrel_dispatch", "IB iff id[7:5]==1, OB iff id[7:5]==2", pdw,
+                  "barrel dispatch is wrong for identifiers %s" % wrong[:6])
     else:
         rep.missing("R11.2", pdw)
 
